@@ -139,6 +139,26 @@ theorem c07_adds_keep_first_get (adds : List Nat) : ∀ (r : Rng) (rest : Ranges
 theorem c07_uncached_target_counterexample :
     get ⟨10, [10]⟩ 12 = [10] ∧ (remove ((add [⟨10, [10]⟩] 11).head!) 12).hs = [] := by decide
 
+/-- `Add(h)` is NOT atomic with respect to the loop: it reads the head of the last range, the loop's `Remove(e)` may run,
+    then `Add` applies what it decided. The invariant survives that interleaving (after the F42 repair) - for every pending
+    set, every head and every `e` -/
+theorem c07_add_racing_remove_keeps_inv (rs : Ranges) (h e : Nat) (hi : Ranges.Inv rs) :
+    Ranges.Inv (addApply true (removeFirst rs e) (addRead rs h) h) := add_split_inv h e hi
+
+/-- without a `Remove` in between, the two halves are `Add` -/
+theorem c07_add_split_is_add (rs : Ranges) (h : Nat) : addApply true rs (addRead rs h) h = add rs h := addApply_addRead rs h
+
+/-- before the repair of F42 the range kept its stale start: `Get(11)` handed out header 12, and with head 13 learned before
+    the `Remove(11)`, 13 was dropped from the pending set without ever having been handed out -/
+theorem c07_add_racing_remove_before_repair :
+    let rs1 := addApply false (removeFirst [⟨10, [10, 11]⟩] 11) (addRead [⟨10, [10, 11]⟩] 12) 12
+    rs1 = [⟨10, [12]⟩] ∧ get rs1.head! 11 = [12] ∧ heights (removeFirst (add rs1 13) 11) = [] := by decide
+
+/-- … and after it: nothing is handed out for 11, and both heads are still cached after the `Remove(11)` -/
+theorem c07_add_racing_remove_repaired :
+    let rs1 := addApply true (removeFirst [⟨10, [10, 11]⟩] 11) (addRead [⟨10, [10, 11]⟩] 12) 12
+    rs1 = [⟨12, [12]⟩] ∧ get rs1.head! 11 = [] ∧ heights (removeFirst (add rs1 13) 11) = [12, 13] := by decide
+
 /-- non-vacuity: a reachable pending set with two ranges, a gap and a cached target -/
 example : Ranges.Inv (run [] [.add 10, .add 11, .add 20, .first]) ∧ (20 ∈ heights (run [] [.add 10, .add 11, .add 20, .first])) ∧
     get ((run [] [.add 10, .add 11, .add 20, .first]).head!) 20 = [10, 11] :=
